@@ -59,9 +59,5 @@ func (dec *Decoder) VerifErrField() (int32, string, bool) {
 	return 0, text, true
 }
 
-// VerifZigZag32 exposes the unexported conv.go transforms.
-func VerifEncodeZigZag32(v int32) uint32 { return encodeZigZag32(v) }
-func VerifDecodeZigZag32(v uint32) int32 { return decodeZigZag32(v) }
-
 // VerifFieldString is FieldNumber.String.
 func VerifFieldString(f int32) string { return FieldNumber(f).String() }
